@@ -129,7 +129,12 @@ Section K.
     let c := {| c_pinc := pinc; c_dinc := dinc; c_duz := duz; c_dlzp := dlzp; c_dlzs := dlzs |} in
     Nat.iter (Z.to_nat ninc) (sac_inc p uztwc_ c) v.
 
-  Definition sac_step (p : sac_par) (st : sac_st) (io : T * T) : sac_st * sac_out :=
+  (** result of the land phase of one time step (everything before the channel
+      computations): loop variables, the new upper tension content and the
+      unscaled evaporation components e1 e2 e3 e5 *)
+  Record sac_land_r := { l_v : sac_inner; l_uztwc : T; l_e1 : T; l_e2 : T; l_e3 : T; l_e5 : T }.
+
+  Definition sac_land (p : sac_par) (st : sac_st) (io : T * T) : sac_land_r :=
     let '(pliq, evapt) := io in
     let saved := rserv p * (lzfpm p + lzfsm p) in
     let alzfsm := lzfsm p * (one + side p) in
@@ -157,10 +162,6 @@ Section K.
       else (zero, zero) in
     let lztwc1 := lztwc st - e3 in
     let adimc1 := adimc st - e5 in
-    let e1s := e1 * (one - adimp p - pctim p) in
-    let e2s := e2 * (one - adimp p - pctim p) in
-    let e3s := e3 * (one - adimp p - pctim p) in
-    let e5s := e5 * adimp p in
     (* resupply of lower zone tension water *)
     let a2 := if lztwm p >? zero then lztwc1 / lztwm p else one in
     let b2 := if alzfpm + alzfsm - saved + lztwm p >? zero
@@ -188,13 +189,18 @@ Section K.
     let v := if (itime =? 1)%Z
              then sac_pass p uztwc3 (one - adj) zero (sac_pass p uztwc3 adj pav v0)
              else sac_pass p uztwc3 adj pav v0 in
-    let flosf := i_flosf v * (one - pctim p - adimp p) in
-    let floin := i_floin v * (one - pctim p - adimp p) in
-    let flobf := i_flobf v * (one - pctim p - adimp p) in
-    let lzfsc' := i_alzfsc v / (one + side p) in
-    let lzfpc' := i_alzfpc v / (one + side p) in
-    let roimp := i_roimp v in
-    let qq1 := (flosf + roimp + floin) :: tl (qq st) in
+    {| l_v := v; l_uztwc := uztwc3; l_e1 := e1; l_e2 := e2; l_e3 := e3; l_e5 := e5 |}.
+
+  (** channel phase: area scaling of the flow components, unit hydrograph,
+      channel losses.  [c_qf] = runoff, [c_bf] = baseflow part of it. *)
+  Record sac_chan_r := { c_qq : list T; c_qf : T; c_bf : T; c_e4 : T }.
+
+  Definition sac_channel (p : sac_par) (qq0 : list T) (evapt flosf0 roimp floin0 flobf0 : T)
+    : sac_chan_r :=
+    let flosf := flosf0 * (one - pctim p - adimp p) in
+    let floin := floin0 * (one - pctim p - adimp p) in
+    let flobf := flobf0 * (one - pctim p - adimp p) in
+    let qq1 := (flosf + roimp + floin) :: tl qq0 in
     let flwsf := fold_left add (map (fun qd => fst qd * snd qd) (combine qq1 (sac_dro p))) zero in
     let qq2 := nth 0 qq1 zero :: firstn 4 qq1 in
     let flwbf0 := flobf / (one + side p) in
@@ -205,10 +211,21 @@ Section K.
     let e4 := amin (evapt * sarva p) qf1 in
     let qf := qf1 - e4 in
     let bf := baseflowFraction * qf in
-    ({| uztwc := uztwc3; uzfwc := i_uzfwc v; lztwc := i_lztwc v; lzfpc := lzfpc'; lzfsc := lzfsc';
-        adimc := i_adimc v; alzfsc := i_alzfsc v; alzfpc := i_alzfpc v; qq := qq2 |},
-     {| o_aet := e1s + e2s + e3s + e4 + e5s; o_runoff := qf; o_imperv := roimp;
-        o_surface := qf - bf; o_baseflow := bf |}).
+    {| c_qq := qq2; c_qf := qf; c_bf := bf; c_e4 := e4 |}.
+
+  Definition sac_step (p : sac_par) (st : sac_st) (io : T * T) : sac_st * sac_out :=
+    let l := sac_land p st io in
+    let v := l_v l in
+    let ch := sac_channel p (qq st) (snd io) (i_flosf v) (i_roimp v) (i_floin v) (i_flobf v) in
+    let e1s := l_e1 l * (one - adimp p - pctim p) in
+    let e2s := l_e2 l * (one - adimp p - pctim p) in
+    let e3s := l_e3 l * (one - adimp p - pctim p) in
+    let e5s := l_e5 l * adimp p in
+    ({| uztwc := l_uztwc l; uzfwc := i_uzfwc v; lztwc := i_lztwc v;
+        lzfpc := i_alzfpc v / (one + side p); lzfsc := i_alzfsc v / (one + side p);
+        adimc := i_adimc v; alzfsc := i_alzfsc v; alzfpc := i_alzfpc v; qq := c_qq ch |},
+     {| o_aet := e1s + e2s + e3s + c_e4 ch + e5s; o_runoff := c_qf ch; o_imperv := i_roimp v;
+        o_surface := c_qf ch - c_bf ch; o_baseflow := c_bf ch |}).
 
   Definition sac_init (p : sac_par) (s0 s1 s2 s3 s4 s5 : T) : sac_st :=
     {| uztwc := s0; uzfwc := s1; lztwc := s2; lzfpc := s3; lzfsc := s4; adimc := s5;
